@@ -1,8 +1,9 @@
 """C15 — pipelined double-buffered loops equal the sequential loop
 (passes `construct-pipeline,pipeline-duplicate-buffers,unroll-pipeline`).
 
-Committed state: the model is the code WITH fix F16 (fixes/F16-construct-pipeline-static-guard.diff) applied:
-ConstructPipeline only fires for constant lb = 0, step = 1 and constant ub >= stages - 1.
+Committed state: the model is the code WITH fix F16 (fixes/F16-construct-pipeline-static-guard.diff, in /repo) and WITH fix
+FC15b (fixes/FC15b-construct-pipeline-no-trailing-ops.diff) applied: ConstructPipeline only fires for constant lb = 0,
+step = 1 and constant ub >= stages - 1, and declines a body in which anything but the yield follows the stages.
 
 A case is an abstract loop: bounds, a tile table (index ops = subviews `A[i + off]`, or loop-invariant `A[off]`; a tile
 may also serve as stage-to-stage buffer: "view" cases), and a token list
@@ -774,7 +775,10 @@ class C15(Prop):
             return r
         p = r["pipelined"]
         wf = p["wf"]
-        if not (wf["dupAdjacent"] and wf["sharedOneSided"]) or (wf["oneWriterStage"] and wf["tilesAligned"] and not wf["safe"]):
+        # these are theorems now (duplicate_establishes_side_conditions); re-evaluated per case as a cheap sanity check of the
+        # driver's decoding: dupWF always, safeB whenever the input clauses hold
+        if (not (wf["dupAdjacent"] and wf["sharedOneSided"] and wf["dupWF"]) or (wf["inputOK"] and not wf["safe"])
+                or (wf["oneWriterStage"] and wf["tilesAligned"] and not wf["safe"])):
             return {"model_error": "the model's output violates the side conditions its theorems take as established by the pass",
                     "wf": p["wf"]}
         body = [_mslot(p["body"])]
